@@ -41,7 +41,7 @@ def write(pid, tier, seed, mir_hash, results, wall, violations, replays, known_p
         'coverage': {
             'states': max(paths, 0),
             'transitions': max(queries, 0),
-            'traces_validated_against_impl': replays,
+            'traces_validated_against_impl': replays + sum(1 for r in results if (r.get('fidelity') or {}).get('status') == 'agrees'),
             'samples': samples,
             'obligations': len(results),
             'discharged': sum(1 for r in results if r.get('verdict') == 'unsat'),
@@ -55,7 +55,8 @@ def write(pid, tier, seed, mir_hash, results, wall, violations, replays, known_p
                               'differs': sum(1 for r in results if (r.get('fidelity') or {}).get('status') == 'differs'),
                               'skipped': sum(1 for r in results if (r.get('fidelity') or {}).get('status') in (None, 'skipped'))},
             'known_findings_printed': [k.get('id') for k in known_printed],
-            'explanation': 'states = feasible symbolic paths of the real MIR explored; transitions = SMT queries discharged; '
+            'explanation': 'states = feasible symbolic paths of the real MIR explored; transitions = SMT queries discharged; traces_validated_against_impl = native runs '
+                           'of the real contracts compared with the executor (counterexample replays + fidelity runs of normal-path witnesses); '
                            'each sample is one obligation (pre-state assumptions + real functions executed + post-condition) with its verdict',
         },
         'assumptions': assumptions,
